@@ -152,7 +152,8 @@ Fixpoint r_inl (i : inl) : list piece :=
   match i with
   | IRun t => [PText t]
   | ITab => [PElem (el T_tab [])]
-  | IBreak => [PElem (el T_line_break [])]
+  | IBreak _ => [PElem (el T_line_break [])]
+  | IMark => [PElem (el T_soft_page_break [])]
   | IDel t | IMovedFrom t =>
       (* the deleted text lives in text:tracked-changes; the paragraph only carries the change point *)
       [PElem (Elem T_change [(s "text:change-id", change_id t)] [] [] [])]
